@@ -25,6 +25,7 @@ import (
 
 	coreapi "github.com/zilliztech/milvus-cdc/core/api"
 	"github.com/zilliztech/milvus-cdc/core/config"
+	cdcreader "github.com/zilliztech/milvus-cdc/core/reader"
 	"github.com/zilliztech/milvus-cdc/server"
 	"github.com/zilliztech/milvus-cdc/server/api"
 	"github.com/zilliztech/milvus-cdc/server/model/meta"
@@ -289,7 +290,7 @@ func newWorld(t fatalfer, o worldOpt) *world {
 	}
 	for i := 0; i < o.targets; i++ {
 		s := milvus.New(fmt.Sprintf("tgt%d", i), o.npch)
-		uri, err := s.Start()
+		uri, err := s.StartOn(fmt.Sprintf("127.%d.%d.%d", 1+(id/200)%200, 1+id%200, 1+i))
 		if err != nil {
 			t.Fatalf("VERIF-TROUBLE: fake milvus: %v", err)
 		}
@@ -318,6 +319,10 @@ func (w *world) start(t fatalfer, reload bool) *incarnation {
 		t.Fatalf("VERIF-TROUBLE: meta store: %v", err)
 	}
 	w.nInc++
+	if w.nInc > 1 {
+		// a restarted process starts with fresh process-wide state (the previous incarnation is dead: fenced and at rest)
+		cdcreader.ResetTSManagerForVerif()
+	}
 	inc := &incarnation{n: w.nInc, mqf: mq.NewFactory(w.broker), store: &faultFactory{inner: inner}}
 	cfg := w.cfg()
 	inc.cdc = server.NewMetaCDCForVerif(cfg, inc.store, mq.Creator{F: inc.mqf})
